@@ -66,6 +66,17 @@ def split_points(line):
     return pts
 
 
+def _expo_word(line, sp, i):
+    """is the word token i the exponent part of a real literal: 12e / 5d, or a bare e / d
+    directly after the '.' of '3.d-2'"""
+    w = line[sp[i][1]:sp[i][2]]
+    if not api.char_in(w[-1:], "eEdD"):
+        return False
+    if w[:1].isdigit():
+        return True
+    return len(w) == 1 and i > 0 and sp[i - 1][2] == sp[i][1] and line[sp[i - 1][1]:sp[i - 1][2]] == "."
+
+
 def free_layout(line, j, o, amp, trail=None, fillers=(), indent="   ", gap=" "):
     """physical lines for `line` continued at split point (j, o).
     amp: continuation line starts with '&'.  trail: comment text placed after the '&' of the
@@ -89,12 +100,10 @@ def free_layout(line, j, o, amp, trail=None, fillers=(), indent="   ", gap=" "):
         cur = line[a:b]
         if prev == "." or cur == ".":
             soft = True
-        elif (cur == "+" or cur == "-") and pk == "w" and prev[:1].isdigit() and api.char_in(prev[-1:], "eEdD"):
+        elif (cur == "+" or cur == "-") and pk == "w" and _expo_word(line, sp, j - 1):
             soft = True
-        elif (prev == "+" or prev == "-") and j > 1 and sp[j - 2][2] == pa and sp[j - 2][0] == "w":
-            pp = line[sp[j - 2][1]:sp[j - 2][2]]
-            if pp[:1].isdigit() and api.char_in(pp[-1:], "eEdD"):
-                soft = True
+        elif (prev == "+" or prev == "-") and j > 1 and sp[j - 2][2] == pa and sp[j - 2][0] == "w" and _expo_word(line, sp, j - 2):
+            soft = True
     if o == 0 and not soft:
         kind = "tok"
         first = line[:cut].rstrip(" ") + gap + "&"
